@@ -11,6 +11,6 @@ for c in $(git log --reverse --format=%h 208a02b..agent-$X); do
 done
 /venv/bin/python -m pytest -q -p no:cacheprovider 2>&1 | tail -1
 cd /verif
-git pull --no-edit /work/a$X/verif main >/dev/null 2>&1 || true
+git stash -q 2>/dev/null; git pull --no-edit /work/a$X/verif main 2>&1 | tail -3 || true
 python3 vf/mergefix.py; python3 vf/mkall.py; /venv/bin/python vf/mkroot.py; /venv/bin/python vf/mkmanifest.py; python3 vf/fixhashes.py
 git add -A; git commit -qm "merge agent $X" ; echo merged $X
